@@ -133,7 +133,12 @@ func translateTarget(repo string, t target, funcs map[string]*fnSig, consts map[
 			bad("guarded constant")
 		}
 		consts[t.name] = v.t
-		return emitted{text: fmt.Sprintf("def %s : %s := %s\n", t.lean, leanType(v.t), v.lean)}
+		txt := fmt.Sprintf("def %s : %s := %s\n", t.lean, leanType(v.t), v.lean)
+		if len(v.rngs) > 0 {
+			// the initialiser performs range-asserting operations (a failure would panic at package init)
+			txt += fmt.Sprintf("def %s_rng : Bool := %s\n", t.lean, conj(v.rngs, "true"))
+		}
+		return emitted{text: txt}
 	case "func":
 		fd := findFunc(f, t.recv, t.name)
 		if fd == nil || fd.Body == nil {
@@ -205,6 +210,8 @@ func translateTarget(repo string, t target, funcs map[string]*fnSig, consts map[
 		if ev.hasErr {
 			fmt.Fprintf(&b, "def %s_err %s : Bool :=\n%s\n\n", t.lean, ps, indent(pre+o.err))
 		}
+		// range guard: false exactly when one of the library's range assertions fires on an intermediate result of the path taken
+		fmt.Fprintf(&b, "def %s_rng %s : Bool :=\n%s\n\n", t.lean, ps, indent(pre+o.rng))
 		funcs[t.name] = sig
 		if t.recv != "" {
 			funcs[t.recv+"."+t.name] = sig
@@ -256,6 +263,7 @@ func translateTarget(repo string, t target, funcs map[string]*fnSig, consts map[
 		var b strings.Builder
 		fmt.Fprintf(&b, "def %s %s : %s :=\n  %s\n\n", t.lean, ps, leanType(v.t), v.lean)
 		fmt.Fprintf(&b, "def %s_ok %s : Bool :=\n  %s\n\n", t.lean, ps, conj(v.panics, "true"))
+		fmt.Fprintf(&b, "def %s_rng %s : Bool :=\n  %s\n\n", t.lean, ps, conj(v.rngs, "true"))
 		return emitted{text: b.String()}
 	case "cond":
 		// the nth `if` condition of the function (source order), not counting `err != nil` checks
@@ -303,6 +311,7 @@ func translateTarget(repo string, t target, funcs map[string]*fnSig, consts map[
 		var b strings.Builder
 		fmt.Fprintf(&b, "def %s %s : Bool :=\n  %s\n\n", t.lean, ps, v.lean)
 		fmt.Fprintf(&b, "def %s_ok %s : Bool :=\n  %s\n\n", t.lean, ps, conj(v.panics, "true"))
+		fmt.Fprintf(&b, "def %s_rng %s : Bool :=\n  %s\n\n", t.lean, ps, conj(v.rngs, "true"))
 		return emitted{text: b.String()}
 	case "rejects":
 		// the disjunction of every `if` condition of the function (source order, without the `err != nil` ones) that mentions
@@ -345,7 +354,7 @@ func translateTarget(repo string, t target, funcs map[string]*fnSig, consts map[
 			return hit
 		}
 		ev.vars[name] = fl.t
-		var parts, oks []string
+		var parts, oks, rngs []string
 		// only statements of the function body itself count (a check nested under another condition is not unconditional),
 		// and only those whose branch ends in `return <something other than nil>`
 		for _, st := range fn.Body.List {
@@ -370,6 +379,7 @@ func translateTarget(repo string, t target, funcs map[string]*fnSig, consts map[
 			}
 			parts = append(parts, v.lean)
 			oks = append(oks, v.panics...)
+			rngs = append(rngs, v.rngs...)
 		}
 		if len(parts) == 0 {
 			bad("no condition mentions %s", name)
@@ -378,6 +388,7 @@ func translateTarget(repo string, t target, funcs map[string]*fnSig, consts map[
 		var b strings.Builder
 		fmt.Fprintf(&b, "def %s %s : Bool :=\n  %s\n\n", t.lean, ps, strings.Join(parts, " ||\n  "))
 		fmt.Fprintf(&b, "def %s_ok %s : Bool :=\n  %s\n\n", t.lean, ps, conj(oks, "true"))
+		fmt.Fprintf(&b, "def %s_rng %s : Bool :=\n  %s\n\n", t.lean, ps, conj(rngs, "true"))
 		return emitted{text: b.String()}
 	}
 	bad("kind %s", t.kind)
